@@ -47,6 +47,7 @@ var (
 type stats struct {
 	Files, Funcs, Loops, Ticks    int
 	GoStmts, Sends, Recvs, Closes int
+	Selects                       int
 	AccField, AccGlobal, AccMap   int
 	AccDeref, AccElem             int
 	Opaque                        int
@@ -523,7 +524,7 @@ func (c *ctx) stmt(s ast.Stmt) []ast.Stmt {
 			cl.Body = c.stmts(cl.Body)
 		}
 	case *ast.SelectStmt:
-		refuse(c.fset, n.Pos(), "select statement")
+		return c.selectStmt(n)
 	case *ast.BranchStmt, *ast.EmptyStmt:
 	default:
 		refuse(c.fset, s.Pos(), fmt.Sprintf("statement %T", s))
@@ -613,6 +614,68 @@ func (c *ctx) forStmt(n *ast.ForStmt) []ast.Stmt {
 }
 
 func hasUnlabeledBreakTargetConflict(*ast.BlockStmt) bool { return false }
+
+// selectStmt rewrites a select into a call of the scheduler helper followed by a switch on the clause taken.
+func (c *ctx) selectStmt(n *ast.SelectStmt) []ast.Stmt {
+	st.Selects++
+	site := strLit(c.site(n.Pos()))
+	var cases []ast.Expr
+	var clauses []ast.Stmt
+	hasDefault := false
+	idx := 0
+	for _, cl := range n.Body.List {
+		cc := cl.(*ast.CommClause)
+		body := c.stmts(cc.Body)
+		if cc.Comm == nil {
+			hasDefault = true
+			clauses = append(clauses, &ast.CaseClause{List: nil, Body: body})
+			continue
+		}
+		var pre []ast.Stmt
+		switch cm := cc.Comm.(type) {
+		case *ast.SendStmt:
+			c.requireBidi(cm.Chan)
+			cases = append(cases, call(sel("_vrt", "SendCase"), c.expr(cm.Chan), c.expr(cm.Value)))
+		case *ast.ExprStmt:
+			u, ok := unparen(cm.X).(*ast.UnaryExpr)
+			if !ok || u.Op != token.ARROW {
+				refuse(c.fset, cm.Pos(), "select clause")
+			}
+			c.requireBidi(u.X)
+			cases = append(cases, call(sel("_vrt", "RecvCase"), c.expr(u.X)))
+		case *ast.AssignStmt:
+			u, ok := unparen(cm.Rhs[0]).(*ast.UnaryExpr)
+			if !ok || u.Op != token.ARROW || len(cm.Rhs) != 1 {
+				refuse(c.fset, cm.Pos(), "select clause")
+			}
+			c.requireBidi(u.X)
+			ch := c.expr(u.X)
+			cases = append(cases, call(sel("_vrt", "RecvCase"), ch))
+			lhs := append([]ast.Expr(nil), cm.Lhs...)
+			if len(lhs) == 1 {
+				lhs = append(lhs, ast.NewIdent("_"))
+			}
+			pre = append(pre, &ast.AssignStmt{Lhs: lhs, Tok: cm.Tok, Rhs: []ast.Expr{call(sel("_vrt", "SelRecv"), ast.NewIdent("_vsel"), ch)}})
+			if cm.Tok == token.DEFINE {
+				// keep the compiler quiet about clause variables the body does not use
+				for _, l := range cm.Lhs {
+					if id, ok := l.(*ast.Ident); ok && id.Name != "_" {
+						pre = append(pre, &ast.AssignStmt{Lhs: []ast.Expr{ast.NewIdent("_")}, Tok: token.ASSIGN, Rhs: []ast.Expr{ast.NewIdent(id.Name)}})
+					}
+				}
+			}
+		default:
+			refuse(c.fset, cc.Pos(), "select clause")
+		}
+		clauses = append(clauses, &ast.CaseClause{List: []ast.Expr{&ast.BasicLit{Kind: token.INT, Value: strconv.Itoa(idx)}}, Body: append(pre, body...)})
+		idx++
+	}
+	selCall := call(sel("_vrt", "Select"), site, ast.NewIdent(strconv.FormatBool(hasDefault)),
+		&ast.CompositeLit{Type: &ast.ArrayType{Elt: sel("_vrt", "SelCase")}, Elts: cases})
+	assign := &ast.AssignStmt{Lhs: []ast.Expr{ast.NewIdent("_vsel")}, Tok: token.DEFINE, Rhs: []ast.Expr{selCall}}
+	sw := &ast.SwitchStmt{Tag: &ast.SelectorExpr{X: ast.NewIdent("_vsel"), Sel: ast.NewIdent("Index")}, Body: &ast.BlockStmt{List: clauses}}
+	return []ast.Stmt{&ast.BlockStmt{List: []ast.Stmt{assign, sw}}}
+}
 
 func (c *ctx) goStmt(n *ast.GoStmt) []ast.Stmt {
 	callExpr := n.Call
